@@ -26,6 +26,13 @@ CLAIMS["C03"] = dict(
     note="Proved: lexer stage only (lex_total, lex_ok_or_err). Explored, not proved: every other stage, stack overflow, time bound (runtime behaviour no model exhibits); bounds: inputs <= 16 KiB, nesting <= 40, dev profile with overflow checks.",
     technique="Lean 4 proof over lexer model + crash/hang oracle on the real pipeline",
     design="§5 C03")
+CLAIMS["C10"] = dict(
+    text="Unbounded Lean theorem print_parse_roundtrip: for every expression over names, literals and the complete set of 23 binary and 4 unary operators (any nesting and depth), a model of the Python 3 expression grammar parses the tokens printed by the model of to_py back to exactly the tree the expression denotes (and to no other). "
+         "The printer's operator spellings, precedence and operand-minimum tables are regenerated from the Rust source on every run, so the proof is re-checked against the current tables; the print model is tied to format!(core) by an exact-text correspondence, and the grammar model is validated against CPython ast.parse. "
+         "Ternary, lambda, call/index/attribute and the desugared forms are covered by the exhaustive depth<=2 / sampled CPython oracle and by both correspondences.",
+    note="Proved: operator fragment (binary incl. comparisons and **, unary, parentheses). Not yet a theorem: ternary, lambda, postfix, isinstance/sqrt/E-notation, collections (oracle + correspondence). Python tokenisation of the rendered text is validated (ast.parse of the real text), not proved.",
+    technique="Lean 4 proof (printer vs Python grammar round trip) + regenerated tables + CPython-validated spec",
+    design="§5 C10")
 NOT_YET = {}
 ALL = ["C%02d" % i for i in range(1, 21)]
 
